@@ -53,6 +53,11 @@ func (c *c02) Cases(tier string, seed int64) []core.Case {
 		k := c02Kinds[r.Intn(len(c02Kinds))]
 		cs = append(cs, core.MkCase(fmt.Sprintf("%s-%s-%d", f, k, i), c02Params{r.Int63(), f, k, r.Intn(5) == 0}))
 	}
+	for i := 0; i < map[string]int{"quick": 2, "thorough": 20}[tier]; i++ {
+		for _, f := range []string{"par2", "par1"} {
+			cs = append(cs, core.MkCase(fmt.Sprintf("%s-input-named-like-output-%d", f, i), c02Params{r.Int63(), f, "input-named-like-output", false}))
+		}
+	}
 	return cs
 }
 
@@ -71,11 +76,76 @@ func addBystanders(rng *rand.Rand, dir, base string, matching bool) {
 	}
 }
 
+// runInputNamedLikeOutput is the pinned witness of defect V: one of the
+// inputs has the name of a file Create is about to write (the index or a
+// recovery file - what "par c set.par *" meets when it is run a second
+// time). Create must not touch it: it refuses, or it leaves the input as it
+// is.
+func (c *c02) runInputNamedLikeOutput(r *core.R, p c02Params, rng *rand.Rand) {
+	for _, which := range []string{"first-volume", "later-volume", "index"} {
+		root, err := os.MkdirTemp("", "c02v-")
+		if err != nil {
+			r.Inconclusive("tempdir: %v", err)
+			return
+		}
+		dir := filepath.Join(root, "set")
+		os.MkdirAll(dir, 0755)
+		base := []string{"set", "my%20set", "a.b"}[rng.Intn(3)]
+		var squat string
+		nblocks := 3 + rng.Intn(3)
+		if p.Fmt == "par2" {
+			squat = map[string]string{"first-volume": base + ".vol00+01.par2", "later-volume": base + ".vol01+02.par2", "index": base + ".par2"}[which]
+		} else {
+			squat = map[string]string{"first-volume": base + ".p01", "later-volume": fmt.Sprintf("%s.p%02d", base, nblocks), "index": base + ".par"}[which]
+		}
+		names := []string{"one.bin", squat, "two.bin"}
+		var paths []string
+		orig := map[string][]byte{}
+		for _, n := range names {
+			b := scen.GenData(rng, "random", 30+rng.Intn(200), 16)
+			os.WriteFile(filepath.Join(dir, n), b, 0644)
+			paths = append(paths, filepath.Join(dir, n))
+			orig[n] = b
+		}
+		before := scen.Snapshot(root)
+		var cerr error
+		pi := core.Protect(func() {
+			if p.Fmt == "par2" {
+				cerr = par2.Create(filepath.Join(dir, base+".par2"), paths, par2.CreateOptions{SliceByteCount: 16, NumParityShards: nblocks, NumGoroutines: 2})
+			} else {
+				cerr = par1.Create(filepath.Join(dir, base+".par"), paths, par1.CreateOptions{NumParityFiles: nblocks})
+			}
+		})
+		desc := fmt.Sprintf("%s Create with an input named %q (the %s it is about to write)", p.Fmt, squat, which)
+		if pi != nil {
+			r.Violate(core.CrashSig(p.Fmt+".Create", pi.Frame, pi.Msg), "%s: panic %s", desc, pi.Msg)
+		}
+		for _, n := range names {
+			if b, err := os.ReadFile(filepath.Join(dir, n)); err != nil || string(b) != string(orig[n]) {
+				r.Violate("create-wrote-to-input", "%s: returned %v and the input %q no longer holds its bytes", desc, cerr, n)
+			}
+		}
+		if cerr != nil {
+			r.Count("create_refused_to_overwrite_input", 1)
+			if d := scen.DiffSnap(before, scen.Snapshot(root)); len(d) > 0 {
+				r.Violate("create-changed-existing-file", "%s: refused (%v) but changed %v", desc, cerr, d)
+			}
+		}
+		r.Key("input-named-like-output|%s|%s|%v", p.Fmt, which, cerr != nil)
+		os.RemoveAll(root)
+	}
+	r.Sample(map[string]interface{}{"kind": "input-named-like-output", "format": p.Fmt})
+}
+
 func (c *c02) Run(cs core.Case) core.Result {
 	var p c02Params
 	core.Decode(cs, &p)
 	r := core.NewR(cs)
 	rng := rand.New(rand.NewSource(p.Seed))
+	if p.Kind == "input-named-like-output" {
+		c.runInputNamedLikeOutput(r, p, rng)
+		return r.Done()
+	}
 	if p.Fmt == "par2" {
 		c.runPar2(r, p, rng)
 	} else {
@@ -442,6 +512,17 @@ func (c *c02) runPar1(r *core.R, p c02Params, rng *rand.Rand) {
 	nf := 1 + rng.Intn(6)
 	nv := 1 + rng.Intn(4)
 	files := genP1Files(rng, nf)
+	if p.Seed%5 == 1 && p.Kind != "bystanders-matching" {
+		// hundreds of parity volumes, and inputs named like the parts of a RAR
+		// set with the archive's own base name (<base>.r00, <base>.q01 ...): no
+		// volume name a writer may invent beyond .p99 may land on an input
+		nv = 200 + rng.Intn(12)
+		base := p1Bases[p1BaseCounter%len(p1Bases)]
+		for i := range files {
+			files[i].Name = base + []string{".r00", ".r01", ".q00", ".q07", ".s00", ".r200", ".r10", ".q99"}[i%8]
+		}
+		r.Count("par1_sets_with_200_volumes_and_rar_names", 1)
+	}
 	e, err := newP1Env(files, nv, false)
 	if e != nil {
 		defer e.close()
